@@ -5,7 +5,7 @@
 (* The trail records the ten views of every round of every pass as seen by a caller who stops in that pass (view 9 of     *)
 (* round 16 is then the final permutation).  After encrypting, the ciphertext is decrypted:    *)
 (* (M) decrypt(encrypt(x)) = x; FP = IP^-1; P^-1 o P = id; parity bits never influence a round key.                          *)
-EXTENDS DES, Json, IOUtils
+EXTENDS SelDES, Json, IOUtils
 Inputs == JsonDeserialize(IOEnv.CASES)        \* [keys |-> <<k1 (8 bytes), k2?, k3?>>, block |-> 8 bytes]
 VARIABLES case, mode, pass, round, L, R, trail, sched
 vars == <<case, mode, pass, round, L, R, trail, sched>>
@@ -46,6 +46,12 @@ ParityIrrelevant == (mode = "enc" /\ pass = 1 /\ round = 1) =>
 KnownAnswer == (case = 1 /\ mode = "dec" /\ pass = 1 /\ round = 1) =>
     /\ Inputs[1].keys = <<<<19, 52, 87, 121, 155, 188, 223, 241>>>> /\ Inputs[1].block = <<1, 35, 69, 103, 137, 171, 205, 239>>
     /\ Bytes(FP(L \o R)) = <<133, 232, 19, 84, 15, 10, 180, 5>>
+\* C07 lemma (single DES): hypothesis under the true round-key word = the designated word of the real cipher run
+SelectionLemma == (mode = "done" /\ NK = 1) =>
+    \A f \in 1..Len(SelFns), w \in 1..8 :
+        LET fn == SelFns[f]  ct == trail.enc[16][10]  in == IF UsesCiphertext(fn) THEN ct ELSE Inputs[case].block
+            kw == Words(sched[1][ExpectedKeyRound(fn)], 6)[w]
+        IN Hyp(fn, in, kw, w) = Target(fn, trail.enc, w)
 Emit == mode = "done" => PrintT(<<"EMIT", ToJson([case |-> case, enc |-> trail.enc, dec |-> trail.dec,
                                                    rk |-> [k \in 1..NK |-> [r \in 1..16 |-> Words(sched[k][r], 6)]]])>>)
 =============================================================================
